@@ -364,13 +364,13 @@ pub fn run(rep: &mut Report) {
     let thorough = rep.is_thorough();
     rep.exhaustive = true;
     if thorough {
-        explore::<VringRwLock, ()>(rep, &[0b11], "rwlock-1worker", 9, 400.0);
-        explore::<VringMutex, ()>(rep, &[0b11], "mutex-1worker", 9, 400.0);
-        explore::<VringRwLock, ()>(rep, &[0b01, 0b10], "rwlock-2workers", 8, 300.0);
-        explore::<VringMutex, ()>(rep, &[0b10, 0b01], "mutex-2workers-swapped", 8, 300.0);
+        explore::<VringRwLock, ()>(rep, &[0b11], "rwlock-1worker", 12, 400.0);
+        explore::<VringMutex, ()>(rep, &[0b11], "mutex-1worker", 12, 400.0);
+        explore::<VringRwLock, ()>(rep, &[0b01, 0b10], "rwlock-2workers", 12, 300.0);
+        explore::<VringMutex, ()>(rep, &[0b10, 0b01], "mutex-2workers-swapped", 12, 300.0);
     } else {
-        explore::<VringRwLock, ()>(rep, &[0b11], "rwlock-1worker", 4, 22.0);
-        explore::<VringMutex, ()>(rep, &[0b01, 0b10], "mutex-2workers", 3, 14.0);
+        explore::<VringRwLock, ()>(rep, &[0b11], "rwlock-1worker", 12, 30.0);
+        explore::<VringMutex, ()>(rep, &[0b01, 0b10], "mutex-2workers", 4, 14.0);
     }
     let p = take_panics();
     if !p.is_empty() {
@@ -381,7 +381,7 @@ pub fn run(rep: &mut Report) {
     rep.sample(json!({"alphabet": alphabet().iter().map(|o| format!("{o:?}")).collect::<Vec<_>>()}));
     rep.rule = "BFS over control-message histories on 2 rings: {SET_FEATURES with/without PROTOCOL_FEATURES, SET_VRING_KICK new descriptor / no descriptor, SET_VRING_CALL, SET_VRING_ENABLE 0/1, GET_VRING_BASE, RESET_DEVICE, guest kick on the current descriptor} against a real daemon (RwLock and Mutex rings, one worker and two workers); every message is acknowledged, a per-worker probe listener is the barrier after each step. State key = model (per ring started/enabled/descriptor/kick pending, PF) + implementation (ready/enabled/kick/call flags per ring, epoll registrations). Non-trivial = steps after which a pending kick had to be dispatched or had to stay retained".into();
     rep.assumptions.push("steps the protocol forbids in the current state (SET_VRING_ENABLE without acknowledged PROTOCOL_FEATURES) are not part of the alphabet in that state".into());
-    rep.assumptions.push("epoll reports ready descriptors in FIFO order, so the probe event is handled after any kick that was pending before it".into());
+    rep.assumptions.push("barrier = two consecutive probe events on the worker: a kick that was ready before the first probe is reported in the same epoll batch at the latest, and the whole batch is handled before the second probe".into());
 }
 
 pub fn replay(case: &Value, rep: &mut Report) {
